@@ -20,51 +20,95 @@ def sh(cmd, cwd=None):
     return p.returncode, p.stdout.decode(errors='replace')
 
 
+def run_seed(sd, repo, env):
+    """apply one seeded change to the given checkout of /repo, run the related checks against it, undo it"""
+    pid = sd.split('-')[0]
+    props = [p for p in RELATED.get(sd, [pid]) if p in propmap.PROPS]
+    patch = os.path.join(ROOT, 'seeded', sd, 'patch.diff')
+    if os.path.exists(os.path.join(ROOT, 'seeded', sd, 'patch.rebased.diff')):
+        # the same change re-expressed on the current /repo HEAD (a later fix: commit touched the same lines)
+        patch = os.path.join(ROOT, 'seeded', sd, 'patch.rebased.diff')
+    rc, out = sh('git apply %s' % patch, repo)
+    res = {}
+    if rc != 0:
+        res = {'error': 'patch does not apply to the current /repo HEAD: ' + out[-300:]}
+    else:
+        for p in props:
+            rc, out = sh('%s ./check %s' % (env, p), ROOT)
+            vio = [l for l in out.splitlines() if l.startswith('VIOLATION')]
+            obs = [l.strip() for l in out.splitlines() if l.strip().startswith('failed obligation')][:3]
+            res[p] = {'exit': rc, 'violation_lines': vio[:3], 'failed_obligations': [o[:260] for o in obs],
+                      'undecided': [l[:200] for l in out.splitlines() if l.startswith('UNDECIDED')][:2]}
+    sh('git checkout -- .', repo)
+    caught = sorted(p for p, r in res.items() if isinstance(r, dict) and r.get('exit') == 1)
+    return {'checked': props, 'caught_by': caught, 'results': res, 'not_claimed': [p for p in RELATED.get(sd, [pid]) if p not in propmap.PROPS]}
+
+
 def main():
-    only = sys.argv[1:]
+    """seed_matrix.py [-j N] [seed ...]: with -j N > 1 the seeds are distributed over N scratch worktrees of /repo (each with its own
+    build directory and evidence directory, removed afterwards); the registered checks themselves are unchanged and /repo is not touched."""
+    args = sys.argv[1:]
+    jobs = 1
+    if args[:1] == ['-j']:
+        jobs = int(args[1]); args = args[2:]
+    only = args
     seeds = sorted(d for d in os.listdir(os.path.join(ROOT, 'seeded')) if os.path.exists(os.path.join(ROOT, 'seeded', d, 'patch.diff')))
+    seeds = [s for s in seeds if not only or s in only]
     rc, out = sh('git status --porcelain --untracked-files=no', '/repo')
     if out.strip():
         print('/repo has uncommitted changes'); sys.exit(2)
     table = {}
     mp0 = os.path.join(ROOT, 'seeded', 'MATRIX.json')
-    if only and os.path.exists(mp0):
+    if os.path.exists(mp0) and only:
         table = json.load(open(mp0))
-    for sd in seeds:
-        if only and sd not in only:
-            continue
-        pid = sd.split('-')[0]
-        props = [p for p in RELATED.get(sd, [pid]) if p in propmap.PROPS]
-        patch = os.path.join(ROOT, 'seeded', sd, 'patch.diff')
-        if os.path.exists(os.path.join(ROOT, 'seeded', sd, 'patch.rebased.diff')):
-            # the same change re-expressed on the current /repo HEAD (a later fix: commit touched the same lines)
-            patch = os.path.join(ROOT, 'seeded', sd, 'patch.rebased.diff')
-        rc, out = sh('git apply %s' % patch, '/repo')
-        res = {}
-        if rc != 0:
-            res = {'error': 'patch does not apply to the current /repo HEAD: ' + out[-300:]}
-        else:
-            for p in props:
-                rc, out = sh('./check %s' % p, ROOT)
-                vio = [l for l in out.splitlines() if l.startswith('VIOLATION')]
-                obs = [l.strip() for l in out.splitlines() if l.strip().startswith('failed obligation')][:3]
-                res[p] = {'exit': rc, 'violation_lines': vio[:3], 'failed_obligations': [o[:260] for o in obs],
-                          'undecided': [l[:200] for l in out.splitlines() if l.startswith('UNDECIDED')][:2]}
-        sh('git checkout -- .', '/repo')
-        caught = sorted(p for p, r in res.items() if isinstance(r, dict) and r.get('exit') == 1)
-        table[sd] = {'checked': props, 'caught_by': caught, 'results': res,
-                     'not_claimed': [p for p in RELATED.get(sd, [pid]) if p not in propmap.PROPS]}
+
+    def record(sd, r):
+        table[sd] = r
         mp = os.path.join(ROOT, 'seeded', sd, 'meta.json')
         try:
             meta = json.load(open(mp))
         except Exception:
             meta = {}
-        meta['verif'] = table[sd]
+        meta['verif'] = r
         cf = os.path.join(ROOT, 'seeded', sd, 'confirm.json')
         if os.path.exists(cf):
             meta['confirmed_by_us'] = json.load(open(cf))
         json.dump(meta, open(mp, 'w'), indent=1)
-        print('%-6s checked=%s caught_by=%s' % (sd, ','.join(props) or '-', ','.join(caught) or ('-' if props else 'property not claimed')), flush=True)
+        print('%-6s checked=%s caught_by=%s' % (sd, ','.join(r['checked']) or '-', ','.join(r['caught_by']) or ('-' if r['checked'] else 'property not claimed')), flush=True)
+
+    if jobs <= 1:
+        for sd in seeds:
+            record(sd, run_seed(sd, '/repo', ''))
+    else:
+        import threading
+        import queue
+        q = queue.Queue()
+        for sd in seeds:
+            q.put(sd)
+        lock = threading.Lock()
+
+        def worker(k):
+            wt, bd, ev = '/tmp/seedmx/wt%d' % k, '/tmp/seedmx/build%d' % k, '/tmp/seedmx/ev%d' % k
+            sh('git -C /repo worktree add --detach %s HEAD' % wt)
+            env = 'VERIF_REPO=%s VERIF_BUILD=%s VERIF_EVIDENCE=%s' % (wt, bd, ev)
+            try:
+                while True:
+                    try:
+                        sd = q.get_nowait()
+                    except queue.Empty:
+                        break
+                    r = run_seed(sd, wt, env)
+                    with lock:
+                        record(sd, r)
+            finally:
+                sh('git -C /repo worktree remove --force %s' % wt)
+                sh('rm -rf %s %s' % (bd, ev))
+        os.makedirs('/tmp/seedmx', exist_ok=True)
+        ts = [threading.Thread(target=worker, args=(k,)) for k in range(jobs)]
+        for t in ts:
+            t.start()
+        for t in ts:
+            t.join()
     json.dump(table, open(os.path.join(ROOT, 'seeded', 'MATRIX.json'), 'w'), indent=1)
 
 
